@@ -513,20 +513,25 @@ example : ∃ is encs, InstrsRT is encs ∧ is.length = 3 :=
         (.cons (actionRT_setqueue 8 5 (by decide) (by decide))
           (.cons (actionRT_output 16 2 65535 (by decide) (by decide) (by decide)) .nil)) rfl (by decide)) .nil)), rfl⟩
 
-/-- FlowRemoved through Parse: header (its Length is NOT recomputed by this encoder: written and read back as it is),
-    40 fixed bytes, the Match.  All scalars inside their widths, `MatchWF m`, total size below 2^16. -/
-theorem flowRemoved_roundtrip (ver ln xid ck pr rs tid ds dn it ht pc bc : Nat) (m : V)
-    (hver : ver < 256) (hln : ln < 65536) (hxid : xid < 4294967296) (hck : ck < 18446744073709551616) (hpr : pr < 65536)
+/-- FlowRemoved through Parse: header, 40 fixed bytes, the Match.  All scalars inside their widths, `MatchWF m`, total size
+    `L` = 48 + size of the Match below 2^16.  `MarshalBinary` stores `L` in Header.Length (whatever `ln0` was there); Parse of
+    the bytes followed by anything returns the value with Length `L`, which encodes to the same bytes. -/
+theorem flowRemoved_roundtrip (ver xid ck pr rs tid ds dn it ht pc bc : Nat) (m : V)
+    (hver : ver < 256) (hxid : xid < 4294967296) (hck : ck < 18446744073709551616) (hpr : pr < 65536)
     (hrs : rs < 256) (htid : tid < 256) (hds : ds < 4294967296) (hdn : dn < 4294967296) (hit : it < 65536)
     (hht : ht < 65536) (hpc : pc < 18446744073709551616) (hbc : bc < 18446744073709551616) (hm : MatchWF m) :
     ∃ mbs, Match.marshalM m = .ok (mbs, m) ∧ (48 + mbs.length < 65536 →
-      let v := flowRemovedV ver ln xid ck pr rs tid ds dn it ht pc bc m
-      ∃ bs, ∀ depth, RoundTrip FlowRemoved.marshalM (parse depth) v v bs) := by
-  obtain ⟨mbs, h1, h2⟩ := flowRemoved_rt ver ln xid ck pr rs tid ds dn it ht pc bc m hver hln hxid hck hpr hrs htid hds hdn
-    hit hht hpc hbc hm
+      let v := flowRemovedV ver (48 + mbs.length) xid ck pr rs tid ds dn it ht pc bc m
+      ∃ bs, (∀ ln0, FlowRemoved.marshalM (flowRemovedV ver ln0 xid ck pr rs tid ds dn it ht pc bc m) = .ok (bs, v)) ∧
+        ∀ depth, RoundTrip FlowRemoved.marshalM (parse depth) v v bs) := by
+  obtain ⟨mbs, h1, _, _, _, _, _⟩ := RT.match_roundtrip m hm
   refine ⟨mbs, h1, fun hL => ?_⟩
-  obtain ⟨h3, h4⟩ := h2 hL
-  exact ⟨_, fun depth => ⟨h3, h3, fun data tail hd hb => h4 depth data tail hd hb⟩⟩
+  obtain ⟨mbs', h1', h2⟩ := flowRemoved_rt ver (48 + mbs.length) xid ck pr rs tid ds dn it ht pc bc m hver hL hxid hck hpr hrs
+    htid hds hdn hit hht hpc hbc hm
+  rw [h1] at h1'
+  cases h1'
+  obtain ⟨h3, h4⟩ := h2 rfl
+  exact ⟨_, h3, fun depth => ⟨h3 _, h3 _, fun data tail hd hb => h4 depth data tail hd hb⟩⟩
 
 /-- SwitchConfig (get-config reply, type 8, and set-config, type 9) through Parse.  `MarshalBinary` stores 12 in
     Header.Length; Parse of the 12 bytes followed by anything returns the value with that Length, which encodes to the
@@ -540,19 +545,20 @@ theorem switchConfig_roundtrip (ver ty xid fl ms : Nat) (hver : ver < 256)
       parse depth data = .ok (switchConfigV ver ty 12 xid fl ms) :=
   switchConfig_rt ver ty xid fl ms hver hty hxid hfl hms
 
-/-- ErrorMsg through Parse (error type other than ET_EXPERIMENTER 0xffff; data `d` with 12 + |d| < 2^16).  The encoder
-    leaves Header.Length as it is.  The decoder takes EVERYTHING behind the 12 fixed bytes as the error data: parsing
-    `bs ++ tail` yields the message with data `d ++ tail` — the value itself exactly when nothing follows (`tail = []`). -/
-theorem errorMsg_roundtrip (ver ln xid t c : Nat) (d : Bytes) (hver : ver < 256) (hln : ln < 65536) (hxid : xid < 4294967296)
+/-- ErrorMsg through Parse (error type other than ET_EXPERIMENTER 0xffff; data `d` with 12 + |d| < 2^16).  `MarshalBinary`
+    stores the size 12 + |d| in Header.Length (whatever `ln0` was there).  The decoder takes EVERYTHING behind the 12 fixed
+    bytes as the error data: parsing `bs ++ tail` yields the message with data `d ++ tail` — the value itself exactly when
+    nothing follows (`tail = []`, third statement). -/
+theorem errorMsg_roundtrip (ver xid t c : Nat) (d : Bytes) (hver : ver < 256) (hxid : xid < 4294967296)
     (ht : t < 65536) (hte : t ≠ Gen.openflow13.ET_EXPERIMENTER) (hc : c < 65536) (hd : 12 + d.length < 65536) :
-    let v := errorMsgV ver ln xid t c d
-    let bs := [n8 ver, n8 Gen.openflow13.Type_Error] ++ be16 (n16 ln) ++ be32 (n32 xid) ++ be16 (n16 t) ++ be16 (n16 c) ++ d
-    ErrorMsg.marshalM v = .ok (bs, v) ∧
+    let v := errorMsgV ver (12 + d.length) xid t c d
+    let bs := [n8 ver, n8 Gen.openflow13.Type_Error] ++ be16 (n16 (12 + d.length)) ++ be32 (n32 xid) ++ be16 (n16 t) ++ be16 (n16 c) ++ d
+    (∀ ln0, ErrorMsg.marshalM (errorMsgV ver ln0 xid t c d) = .ok (bs, v)) ∧
     (∀ (depth : Nat) (data : Slice) (tail : Bytes), data.WF → data.bytes = bs ++ tail →
-      parse depth data = .ok (errorMsgV ver ln xid t c (d ++ tail))) ∧
+      parse depth data = .ok (errorMsgV ver (12 + d.length) xid t c (d ++ tail))) ∧
     ∀ (depth : Nat) (data : Slice), data.WF → data.bytes = bs → parse depth data = .ok v := by
   intro v bs
-  obtain ⟨h1, h2⟩ := errorMsg_rt ver ln xid t c d hver hln hxid ht hte hc hd
+  obtain ⟨h1, h2⟩ := errorMsg_rt ver xid t c d hver hxid ht hte hc hd
   refine ⟨h1, h2, fun depth data hdw hb => ?_⟩
   have := h2 depth data [] hdw (by rw [hb, List.append_nil])
   rw [List.append_nil] at this
